@@ -993,7 +993,31 @@ func callBuiltin(caller *frame, callpos token.Pos, fn *ssa.Builtin, args []value
 			params := fn.Type().(*types.Signature).Params()
 			src = conv(params.At(0).Type(), params.At(1).Type(), src)
 		}
-		return copy(args[0].([]value), src.([]value))
+		dst, srcv := args[0].([]value), src.([]value)
+		n := len(dst)
+		if len(srcv) < n {
+			n = len(srcv)
+		}
+		// element-wise load/store by the static element type: struct and array elements are values, not references
+		// (overlapping slices: copy through a snapshot, as the builtin's memmove semantics require)
+		elemT := fn.Type().(*types.Signature).Params().At(0).Type().Underlying().(*types.Slice).Elem()
+		snap := make([]value, n)
+		for i := 0; i < n; i++ {
+			snap[i] = load(elemT, &srcv[i])
+		}
+		for i := 0; i < n; i++ {
+			switch elemT.Underlying().(type) {
+			case *types.Struct, *types.Array:
+				if dst[i] == nil {
+					dst[i] = snap[i]
+				} else {
+					store(elemT, &dst[i], snap[i])
+				}
+			default:
+				dst[i] = snap[i]
+			}
+		}
+		return n
 
 	case "close": // close(chan T)
 		ch, _ := args[0].(*schan)
